@@ -22,7 +22,8 @@ PROPERTY = "C16"
 INSTANCE_SECONDS = {"quick": 900, "thorough": 3000}
 EXPLANATION = (
     "Symbolic file body over the alphabet {letter, '#', U+00E9, space, '=', newline}; newline convention (LF/CRLF/CR), "
-    "coding line (none/utf-8/latin-1/ascii) and 'final newline or not' enumerated; the bytes on disk are the encoding of "
+    "coding line (none/utf-8/latin-1/ascii, on line 1 or 2, optionally preceded by one solver-chosen blank from {space, tab, form feed}) "
+    "and 'final newline or not' enumerated; the bytes on disk are the encoding of "
     "the text under the declared encoding. Asserted by solver query: (1) re-writing the text that File.read() returned "
     "through ChangeContents leaves the bytes identical; (2) an edit at symbolic positions with a symbolic inserted string "
     "changes exactly the edited span (bytes equal the encoding of the spliced text under the same encoding and newline "
@@ -36,14 +37,16 @@ ASSUMPTIONS = [
 ]
 OUTSIDE = "code points >= 256, encodings other than utf-8/latin-1/ascii, mixed newline conventions, body longer than L"
 BOUNDS = {
-    "quick": {"body_L": 5, "insert_L": 1, "edit_L": {"none": 2, "utf8": 3, "latin1": 4, "ascii": 4, "latin1l2": 3, "latin1l2b": 3}},
-    "thorough": {"body_L": 6, "insert_L": 2, "edit_L": {"none": 3, "utf8": 4, "latin1": 5, "ascii": 5, "latin1l2": 4, "latin1l2b": 4}},
+    "quick": {"body_L": 5, "insert_L": 1, "edit_L": {"none": 2, "utf8": 3, "latin1": 4, "ascii": 4, "latin1l2": 3, "latin1l2b": 3, "latin1ws": 3, "latin1l2ws": 3}},
+    "thorough": {"body_L": 6, "insert_L": 2, "edit_L": {"none": 3, "utf8": 4, "latin1": 5, "ascii": 5, "latin1l2": 4, "latin1l2b": 4, "latin1ws": 4, "latin1l2ws": 4}},
 }
 STUBS = ["fscommands: in-memory byte store", "fscommands.type/chr shadowed by proxy-aware versions"]
 
 ALPHA = [(97, 97), (35, 35), (0xE9, 0xE9), (32, 32), (61, 61), (10, 10)]
 HEADERS = {"none": (None, ""), "utf8": ("utf-8", "# -*- coding: utf-8 -*-\n"), "latin1": ("latin-1", "# coding: latin-1\n"), "ascii": ("ascii", "# coding=ascii\n"),
-           "latin1l2": ("latin-1", "#!/usr/bin/env python\n# vim: set fileencoding=latin-1 :\n"), "latin1l2b": ("latin-1", "\n# coding: latin-1\n")}
+           "latin1l2": ("latin-1", "#!/usr/bin/env python\n# vim: set fileencoding=latin-1 :\n"), "latin1l2b": ("latin-1", "\n# coding: latin-1\n"),
+           # \x00 = one symbolic blank (space, tab or form feed: PEP 263 allows [ \t\f]* before the '#')
+           "latin1ws": ("latin-1", "\x00# coding: latin-1\n"), "latin1l2ws": ("latin-1", "#!/usr/bin/env python\n\x00# coding: latin-1\n")}
 NLS = {"lf": "\n", "crlf": "\r\n", "cr": "\r"}
 
 
@@ -102,7 +105,13 @@ def make_run(p):
         atexit.register(shutil.rmtree, _TMP, True)
         open(os.path.join(_TMP, "m.py"), "w").close()
 
+    enc, header0 = enc, header
+
     def run():
+        header = header0
+        if "\x00" in header0:
+            pre_, post_ = header0.split("\x00")
+            header = tosym(pre_) + sym_str("ws", 1, ranges=[(9, 9), (12, 12), (32, 32)]) + post_
         body = sym_str("body", L, ranges=ALPHA)
         if enc == "ascii" and L:
             assume(mkbool(S._and([c < 128 for c in tosym(body).cs])))
